@@ -439,3 +439,105 @@ def anim_fallback(m, meta):
     finally:
         ITerm2Image._supported, ITerm2Image._TERM = saved
     return {"reproduced": bool(problems), "input": "iterm2 style with native animation requested: iteration frames and a still image, three terminals", "observed": problems[:3]}
+
+
+def current_frame(m, meta):
+    """an animated image made from a caller-supplied PIL image (one shared handle that keeps its position between renders): whatever
+    was rendered or iterated before, a render shows the image's CURRENT frame - frame 0 included - i.e. equals the render of a fresh
+    image standing on that frame; all styles, still renders interleaved with partial iterations"""
+    import io, warnings
+    import tests  # noqa: F401
+    import term_image.geometry as G
+    from PIL import Image
+    from term_image.image import BlockImage, KittyImage, ITerm2Image, ImageIterator
+    warnings.simplefilter("ignore")
+    saved = (KittyImage._supported, ITerm2Image._supported, getattr(ITerm2Image, "_TERM", None))
+    KittyImage._supported = ITerm2Image._supported = True
+    ITerm2Image._TERM = "iterm2"
+    tests.set_cell_size(G.Size(4, 8))
+    problems = []
+    cols = [(250, 0, 0), (0, 250, 0), (0, 0, 250), (250, 250, 0)]
+    buf = io.BytesIO()
+    fr = [Image.new("RGB", (16, 16), c) for c in cols]
+    fr[0].save(buf, "GIF", save_all=True, append_images=fr[1:], duration=50, loop=0)
+    data = buf.getvalue()
+    try:
+        for cls, spec in ((BlockImage, "1.1"), (KittyImage, "1.1+W"), (KittyImage, "1.1+L"), (ITerm2Image, "1.1+W"), (ITerm2Image, "1.1+L")):
+            def fresh(n):
+                im = cls(Image.open(io.BytesIO(data)), width=4)
+                im.seek(n)
+                return format(im, spec)
+            want = [fresh(n) for n in range(4)]
+            if len(set(want)) != 4:
+                continue
+            image = cls(Image.open(io.BytesIO(data)), width=4)
+            for step in ("seek 2", "seek 0", "seek 3", "iterate 2 frames and close", "seek 0", "seek 1", "iterate fully", "seek 0"):
+                if step.startswith("seek"):
+                    image.seek(int(step.split()[1]))
+                else:
+                    it = ImageIterator(image, 1, spec, False)
+                    for i, _ in enumerate(it):
+                        if step.startswith("iterate 2") and i == 1:
+                            break
+                    it.close()
+                n = image.tell()
+                got = format(image, spec)
+                if got != want[n]:
+                    shows = want.index(got) if got in want else "none of the frames"
+                    problems.append({"style": cls.__name__, "spec": spec, "after": step, "current frame": n, "render shows frame": shows})
+                    break
+    finally:
+        KittyImage._supported, ITerm2Image._supported, ITerm2Image._TERM = saved
+    return {"reproduced": bool(problems), "input": "PIL-sourced 4-frame GIF: seeks, partial and full iterations, a still render after each", "observed": problems[:3]}
+
+
+def animated_draw_frame(m, meta):
+    """an animated draw() - completed (finite repeat), interrupted, or failing - on an image standing on any frame leaves the image's
+    current frame where it was"""
+    import io, sys, warnings
+    import tests  # noqa: F401
+    from PIL import Image
+    from term_image.image import BlockImage
+    import term_image.image.common as common
+    warnings.simplefilter("ignore")
+    common.time.sleep = lambda s: None
+    problems = []
+    cols = [(250, 0, 0), (0, 250, 0), (0, 0, 250), (250, 250, 0)]
+    buf = io.BytesIO()
+    fr = [Image.new("RGB", (8, 8), c) for c in cols]
+    fr[0].save(buf, "GIF", save_all=True, append_images=fr[1:], duration=50, loop=0)
+    data = buf.getvalue()
+
+    class Boom(Exception):
+        pass
+
+    class Out(io.StringIO):
+        def __init__(self, fail_at=None, exc=None):
+            super().__init__()
+            self.n, self.fail_at, self.exc = 0, fail_at, exc
+
+        def write(self, s):
+            self.n += 1
+            if self.fail_at is not None and self.n == self.fail_at:
+                raise self.exc()
+            return super().write(s)
+    for start in (0, 1, 3):
+        for repeat in (1, 2):
+            for cached in (False, True):
+                for fault in (None, (7, KeyboardInterrupt), (12, Boom)):
+                    image = BlockImage(Image.open(io.BytesIO(data)), height=2)
+                    image.seek(start)
+                    out = Out(*(fault or (None, None)))
+                    old = sys.stdout
+                    sys.stdout = out
+                    try:
+                        try:
+                            image.draw(repeat=repeat, cached=cached)
+                        except Boom:
+                            pass
+                    finally:
+                        sys.stdout = old
+                    if image.tell() != start:
+                        problems.append({"frame before the animated draw": start, "repeat": repeat, "cached": cached,
+                                         "draw": "completed" if fault is None else f"{fault[1].__name__} at write {fault[0]}", "frame afterwards": image.tell()})
+    return {"reproduced": bool(problems), "input": "animated draw() from frames 0 / 1 / 3, completed, interrupted and failing", "observed": problems[:3]}
